@@ -226,6 +226,35 @@ def t3_inplace(rep, tier, seed):
                 rep.violation("spec", "a gzip input was not rewritten as the gzip-compressed transformed bytes",
                               {"argv": ["mlr", "-I"] + flags + ["--icsv", "--ocsv", "put", "$c = $a + $b", name], "exit": p.returncode,
                                "file_starts_with": raw[:4].hex(), "decompressed": None if got is None else got.decode(errors='replace'), "wanted": want.decode()}, True)
+        # 7. the output file cannot be written completely (file-size limit): for plain and gzip inputs, at limits
+        # that make the failure surface during streaming or only when the compressor is closed
+        import t3util
+        d = os.path.join(base, "fsize")
+        os.makedirs(d)
+        rows = "".join(f"{i},{(i * 7919) % 1000},{'abcdefghij'[i % 10] * 8}\n" for i in range(1, 301))
+        plain = ("k,v,w\n" + rows).encode()
+        argvf = ["--icsv", "--ocsv", "sort", "-nr", "v"]
+        want = t3util.run(mlr, argvf, stdin=plain)[1]
+        counts["write_failure"] = 0
+        for name, data, dec in [("p.csv", plain, lambda b: b), ("q.csv.gz", gzip.compress(plain), gzip.decompress)]:
+            for limit in [512, 1024, 2048, 4096, 5000, 6000, 8192]:
+                fn = os.path.join(d, name)
+                for x in os.listdir(d):
+                    os.remove(os.path.join(d, x))
+                open(fn, "wb").write(data)
+                rc, so, se = t3util.run(mlr, ["-I"] + argvf + [fn], fsize_limit=limit)
+                n_eval += 1
+                counts["write_failure"] += 1
+                raw = open(fn, "rb").read()
+                try:
+                    got = dec(raw)
+                except Exception:
+                    got = None
+                ok = (rc != 0 and raw == data and se.strip()) or (rc == 0 and got == want)
+                if not ok or [x for x in _listing(d) if x != name]:
+                    rep.violation("spec", "the transformed file could not be written completely (file-size limit) and the run did not end with a non-zero exit, a diagnostic, the named file intact and no temporary file",
+                                  {"argv": ["mlr", "-I"] + argvf + [name], "ulimit_f_bytes": limit, "input_bytes": len(data), "exit": rc, "stderr": se.decode(errors="replace")[:200],
+                                   "file_bytes_after": len(raw), "file_decodes": got is not None, "equals_original": raw == data, "equals_transformed": got == want, "dir": _listing(d)}, True)
     finally:
         shutil.rmtree(base, ignore_errors=True)
     cov.update(counts)
